@@ -272,10 +272,17 @@ structure LongTable where
   rows : List (List Cell × Option Rat)
 deriving Repr
 
-/-- `df[dim.name].map(dim.dtype)` for a typed dimension; untyped dimensions keep their cells -/
+/-- a float label whose value the conversion would change (2000.7 → 2000) is kept as it is, hence
+treated like any other unknown item (D30 repair; regenerated from `_as_item`) -/
+def keepsLabel (c : Cell) (dt : DType) : Bool :=
+  match c, dt with
+  | .num q true, .int => Gen.convertKeepsFractionalLabels && q.den != 1
+  | _, _ => false
+
+/-- `df[dim.name].map(…)` for a typed dimension; untyped dimensions keep their cells -/
 def convLabel (d : Dim) (c : Cell) : Option Cell :=
   match d.dtype with
-  | some dt => convCell dt c
+  | some dt => if keepsLabel c dt then some c else convCell dt c
   | none => some c
 
 /-- `_convert_type` and `_sort_columns` -/
